@@ -501,6 +501,32 @@ def maybe_clone(o, h):
     return o
 
 
+def paired(factory, key=str):
+    """the items of `factory()`, drawn in lock-step with a second iterator obtained from the same call: two
+    iterations over one object are independent of each other (iteration state belongs to the iterator, not
+    to the object iterated), so both must give the same items; AssertionError otherwise"""
+    it1 = iter(factory())
+    it2 = iter(factory())
+    n = 0
+    while True:
+        try:
+            x = next(it1)
+        except StopIteration:
+            try:
+                next(it2)
+            except StopIteration:
+                return
+            raise AssertionError('a second, interleaved iteration yields more items than the first (after %d)' % n)
+        try:
+            y = next(it2)
+        except StopIteration:
+            raise AssertionError('a second, interleaved iteration ends early (after %d items)' % n)
+        if key(x) != key(y):
+            raise AssertionError('interleaved iterations disagree at item %d: %s / %s' % (n, key(x), key(y)))
+        n += 1
+        yield x
+
+
 def disturb(*objs):
     """What a caller may do with *its own* IP objects after handing them to a constructor or function:
     move them (the cursor idiom `r = IPRange(cur, cur + n - 1); cur += n`).  netaddr copies its arguments;
